@@ -7,6 +7,12 @@ CHECKS = {
         "quick": {"runs": 160000, "wall": 75},
         "thorough": {"runs": 4000000, "wall": 1500},
     },
+    "C12": {
+        "level": "exploration",
+        "legs": [("hist", "C12")],
+        "quick": {"runs": 160000, "wall": 75},
+        "thorough": {"runs": 4000000, "wall": 1500},
+    },
 }
 
 
@@ -16,6 +22,16 @@ def leg_of(check, i):
 
 
 EVIDENCE_TEXT = {
+    "C12": {
+        "rule": "each run = seeded constructor variant (n_bins+range | edges | inner edges+range | with fill_data) + seeded op list of "
+                "fill batches (incl. empty, scalars, duplicates, values exactly on first/inner/last edges, far outside), reads of "
+                "data/underflow/overflow/n_entries/raw_data/edges in any order, rebins (non-uniform, repeated edges, other bin count), "
+                "optional final set_bins read-back; reference = multiset + half-open interval counting. non-trivial = >=3 mutators, "
+                ">=1 read after a mutator, >=1 entry; distinct = distinct event-log digests among those.",
+        "states_measure": "distinct (processed?, unprocessed?, manual?, n_bins) tuples",
+        "assumptions": ["finite entries only", "no fault kind applies to an in-memory container: the explored dimension is the history (batching, read placement, rebins)",
+                        "set_bins is only read back; that fill/rebin are refused afterwards is kafe2's documented choice"],
+    },
     "C04": {
         "rule": "each run = seeded swarm config + seeded op list (graph construction, assignments, reads, freeze/unfreeze, "
                 "replacements, element assignment, dependency additions, drops+gc, armed function failures) executed on real "
